@@ -255,7 +255,8 @@ func TestC18(t *testing.T) {
 		"program bytes intact, exactly one warning line per stray port access; non-trivial = >= 2 calls of both kinds, or a string with 0x00 / a byte >= 0x80 / empty; distinct by hash(program)"
 	rapid.Check(t, func(t *rapid.T) {
 		var c c18Case
-		c.SP = rapid.SampledFrom([]int{0xF000, 0x8000, 0xFE00, 0xC000, 0x0000}).Draw(t, "sp")
+		// incl. the CP/M convention LD SP,(6) = 0xFE06: the stack sits directly below the BDOS entry
+		c.SP = rapid.SampledFrom([]int{0xF000, 0x8000, 0xFE00, 0xC000, 0x0000, 0xFE06, 0xFE06, 0xFE04, 0xFE02, 0xFF00, 0x0100, 0xFFFE}).Draw(t, "sp")
 		c.LoadFile = rapid.IntRange(0, 3).Draw(t, "loadfile") == 0
 		n := rapid.IntRange(1, 8).Draw(t, "ncalls")
 		// string area: 0x1000..0xBFFF, bump allocated with drawn gaps (never overlaps program, page 0, BIOS; stack sits at SP-2..SP-1)
